@@ -307,6 +307,11 @@ def program_cases(tier, rng):
         for path in ("/api", "/api/", "/api/x", "/apix", "/apixy", "/a/b/c", "/a/bc", "/", "", "/other"):
             for rootp in ("", "/root"):
                 yield "subpaths", ["diff", "subpaths", t, rootp, path]
+    for order in ("mounts-first", "pages-first"):
+        for path in ("/", "/about", "/blog/first", "/blog/first/draft", "/static", "/static/", "/static/logo.png", "/static/css/site.css",
+                     "/static/favicon.ico", "/static/js/app.js", "/staticfiles", "/api", "/api/v1", "/api/v1/users/7", "/api/v1/users/x",
+                     "/api/v1/teams", "/api/v2/users/7", "/api/status", "", "/static/css", "/api/v1/"):
+            yield "fallback", ["diff", "fallback", order, path]
     for host in (None, "example.com", "api.example.com", "x.example.com:80", "EXAMPLE.com", "evil.com"):
         yield "hosts", ["diff", "hosts", [["example\\.com", "root"], [".*\\.example\\.com(:\\d+)?", "sub"]], host]
     etag, lm = None, None
@@ -849,6 +854,43 @@ def build_program(case, iface):
             return B.request_response(view)
         cls = B.Subpaths if kind == "subpaths" else B.Hosts
         return cls(*[(p, leaf(n)) for p, n in case[2]])
+    if kind == "fallback":
+        # a request that is dispatched a second time: the usual fallback middleware relays the answer of the wrapped
+        # application unless it is 404 and then hands the SAME request to a second application.  What the dispatchers
+        # (Subpaths, Router) left behind in the environ / scope on the way to the first 404 is then visible.
+        def view(name):
+            if iface == "wsgi":
+                def v(request):
+                    return B.PlainTextResponse("%s|%s|%s|%r" % (name, request.get("SCRIPT_NAME", ""), request.get("PATH_INFO", ""),
+                                                               sorted((k, str(x)) for k, x in request.path_params.items())))
+            else:
+                async def v(request):
+                    return B.PlainTextResponse("%s|%s|%s|%r" % (name, request.get("root_path", ""), request.get("path", ""),
+                                                               sorted((k, str(x)) for k, x in request.path_params.items())))
+            return B.request_response(v)
+
+        def first_of(first, second):
+            if iface == "wsgi":
+                @B.middleware
+                def fallback(request, next_call):
+                    response = next_call(request)
+                    if response.status_code != 404:
+                        return response
+                    return B.NextResponse.from_app(second, request)
+            else:
+                @B.middleware
+                async def fallback(request, next_call):
+                    response = await next_call(request)
+                    if response.status_code != 404:
+                        return response
+                    return await B.NextResponse.from_app(second, request)
+            return fallback(first)
+        mounts = B.Subpaths(("/static", B.Router(("/logo.png", view("logo")), ("/css/{name}", view("css")))),
+                            ("/api", B.Subpaths(("/v1", B.Router(("/users/{id:int}", view("user")))))))
+        pages = B.Router(("/", view("home")), ("/{page}", view("page")), ("/{section}/{page}", view("page2")))
+        if case[2] == "mounts-first":
+            return first_of(mounts, pages)
+        return first_of(pages, mounts)
     if kind in ("files", "pages"):
         import baize.wsgi.responses as W
         import baize.asgi.responses as A
@@ -999,6 +1041,8 @@ def request_of(case):
     """(method, path, root, headers) for a differential program"""
     kind = case[1]
     if kind == "router":
+        return "GET", case[3], "", []
+    if kind == "fallback":
         return "GET", case[3], "", []
     if kind == "subpaths":
         return "GET", case[4], case[3], []
